@@ -97,12 +97,12 @@ func Harness_C18_purge_during_fetch() {
 	e.mu.Unlock()
 	verifAssume(done != nil)
 	d.RemoveHTTPCache(k) // must not block: a blocked path is reported as no-deadlock
-	verifAssert("C18.racing.purge-leaves-detached-entry-untouched", e.status == StatusFetching && len(e.chanList) == 1 && !verifLockHeld(e.mu))
+	verifAssert("C18.racing.purge-leaves-detached-entry-untouched", e.status == StatusFetching && verifChanSliceLen(e) == 1 && !verifLockHeld(e.mu))
 	e2 := d.GetHTTPCache(k)
 	verifAssert("C18.racing.later-requests-get-a-fresh-entry", e2 != e && e2.status == StatusUnknown)
 	// the fetcher finishes on the detached entry (its waiter list is emptied here so that the
 	// sequential run does not park; the hand-off itself is decided by the BMC systems)
-	e.chanList = nil
+	verifChanSliceClear(e)
 	e.Cacheable(&HTTPResponse{}, 100)
 	s2, _ := e2.Get()
 	// F11 (fixed in f82aea6: the purge detaches the entry from the store): with a store, the
